@@ -39,6 +39,37 @@ theorem c17_result_ok (session : Bool) (outs : List (Exch ρ)) (hw : WfScript ta
   | true => simpa [request] using session_resultOk tables hr hf hn outs hw (by simpa using hl)
   | false => exact plain_resultOk tables hp outs hw (by simpa using hl)
 
+/-- every statement the translator found inside the `if log_traffic:` blocks of both requesters is of the
+    kind that cannot raise (a `debug(fmt, names / header join / x or "")` call) -/
+theorem log_blocks_safe : logSafe tables = true := by decide
+
+/-- **Traffic logging is observationally transparent**: with the `async_upnp_client.traffic.upnp` logger
+    at DEBUG or not, for every requester, every outcome script and whatever the response bodies are
+    (valid UTF-8 or not), result and number of attempts are the same as without the logging blocks. -/
+theorem logging_transparent (session log log' : Bool) (utf8 : ρ → Bool) (outs : List (Exch ρ)) :
+    requestL tables session log utf8 outs = requestL tables session log' utf8 outs
+      ∧ requestL tables session log utf8 outs = request tables session outs := by
+  rw [requestL_eq_request tables log_blocks_safe, requestL_eq_request tables log_blocks_safe]
+  exact ⟨rfl, rfl⟩
+
+/-- … hence the property predicate holds in every logging configuration -/
+theorem c17_result_ok_logging (session log : Bool) (utf8 : ρ → Bool) (outs : List (Exch ρ))
+    (hw : WfScript tables outs) (hl : (if session then tables.retries else 0) < outs.length) :
+    resultOk tables session outs (observe tables (requestL tables session log utf8 outs)) = true := by
+  rw [(logging_transparent session log log utf8 outs).2]
+  exact c17_result_ok session outs hw hl
+
+/-- what the model says about a logging block that is NOT safe (so that the theorem above is not vacuous):
+    with a strict `resp_body.decode()` among the response-logging arguments, a successful exchange with a
+    non-UTF-8 body becomes `UpnpCommunicationError` exactly when logging is on -/
+example :
+    let T : Tables := { tables with logInner := { pre := [.safe], post := [.decodeStrictBody] } }
+    logSafe T = false
+    ∧ requestL T true true (fun _ => false) [Exch.ok 7, .ok 8, .ok 9] = (.raised tables.cUpnpComm none, 1)
+    ∧ requestL T true false (fun _ => false) [Exch.ok 7, .ok 8, .ok 9] = (.ret 7, 1)
+    ∧ requestL T true true (fun _ => true) [Exch.ok 7, .ok 8, .ok 9] = (.ret 7, 1) := by
+  decide
+
 /-- non-vacuity of `c17_result_ok`: a concrete script (server disconnect, timeout, then HTTP 404 as
     `ClientResponseError`) is well-formed, long enough, makes the session requester use all three
     attempts and ends in a response error carrying the status. -/
